@@ -172,7 +172,9 @@ def catalogue(T):
         out.append(("Logit(lower=%g,logdelta=%g)" % (lower, ld), mk("Logit", {"lower": lower, "logdelta": ld}),
                     lower + width * lin(0.1, 0.9, 17), []))
     for nu, ctor in ((1e-10, {}), (0.01, {}), (1.0, {}), (0.5, {"mininu": 0.5, "base": 10}), (2.0, {"base": 2})):
-        out.append(("Log(nu=%g,%s)" % (nu, ctor), mk("Log", {"nu": nu}, **ctor), geo(0.1, 1e4, 24), []))
+        # the domain is x > -nu: for shifts that are not negligible, also the negative part (x + nu down to 5% of nu)
+        xs_log = geo(0.1, 1e4, 24) if nu < 0.01 else np.concatenate([-nu * lin(0.95, 0.05, 7), geo(0.1, 1e4, 24)])
+        out.append(("Log(nu=%g,%s)" % (nu, ctor), mk("Log", {"nu": nu}, **ctor), xs_log, []))
     lams = [0.0, 5e-11, 1.5e-10, 1e-6, 0.01, 0.2, 0.5, 1.0, 2.0, 3.0]
     for cls in ("BoxCox2", "BoxCox2sym"):
         for nu in (1e-10, 0.1, 2.0):
@@ -236,7 +238,8 @@ def catalogue(T):
                         lower + (float(t0.upper - lower) if hasattr(t0, "upper") else math.exp(ld)) * lin(0.05, 0.95, 19), []))
         elif cls == "Log":
             nu = LU(1e-6, 5)
-            out.append(("Log(nu=%r)" % nu, mk("Log", {"nu": nu}), geo(0.1, 1e4, 24), []))
+            out.append(("Log(nu=%r)" % nu, mk("Log", {"nu": nu}),
+                        geo(0.1, 1e4, 24) if nu < 0.01 else np.concatenate([-nu * lin(0.95, 0.05, 7), geo(0.1, 1e4, 24)]), []))
         elif cls in ("BoxCox2", "BoxCox2sym"):
             nu, lam = LU(1e-6, 3), U(0, 3)
             xs = geo(0.1, 100.0 if lam <= 1.0 else 20.0, 20)
